@@ -796,9 +796,13 @@ def parse_tree_to_objgraph(
                     setattr(obj_attr, attr_name, value)
 
             elif op in ["list", "oneormore", "zeroormore"]:
+                # The separator match of this repetition (if any). Separator
+                # nodes are recognized by identity, not by the rule name "sep",
+                # as a grammar rule can be named "sep" too.
+                sep_rule = getattr(node.rule, "sep", None)
                 for n in node:
                     # If the node is separator skip
-                    if n.rule_name != "sep":
+                    if sep_rule is None or n.rule is not sep_rule:
                         # Convert node to proper type
                         # Rule links will be resolved later
                         value = process_node(n)
